@@ -231,6 +231,25 @@ def run(ctx):
     if lines:
         count_classes(ctx, lines)
         ctx.traces_validated += len(lines)
+        # binding guard: every judged field of an accepted wide read is corrupted in turn (one record per
+        # corruption); the trace spec must reject exactly those records
+        good = [json.loads(x) for x in lines if '"some":true' in x and '"oom":false' in x]
+        if good and not any(v[0].startswith("C07:read_chars") for v in ctx.violations):
+            base = good[len(good) // 2]
+            corrupt = []
+            for k, f in (("size_r", lambda v: v + 1), ("size_q", lambda v: v - 1), ("pos_r", lambda v: v + 1),
+                         ("head", lambda v: [v[0] + 1] + v[1:]), ("tail", lambda v: v[:3] + [v[3] + 1]),
+                         ("some", lambda v: False)):
+                c = dict(base)
+                c[k] = f(c[k])
+                corrupt.append(c)
+            corrupt.append(base)
+            cpath = os.path.join(ctx.workdir, "bigread_corrupt.ndjson")
+            vlib.write_ndjson(cpath, corrupt)
+            cbad = sorted(b["l"] for b in vlib.judge_trace(ctx, TRACE_MODULE, TRACE_CFG, cpath, nchunks=1))
+            if cbad != list(range(1, len(corrupt))):
+                raise vlib.Infra("binding guard: corrupted wide reads rejected at %r, expected 1..%d" % (cbad, len(corrupt) - 1))
+            ctx.extra.setdefault("vacuity_guards", []).append({"trace": "bigread_corrupt", "rejected": len(cbad)})
     ctx.rule = ("histories: (a) every generated transition of the small TLC model as an op script, (b) seeded random "
                 "histories <= 60 ops over 3 vectors + 2 buffers with all valid positions/counts and aliased values, "
                 "(c) read_chars over all text lengths 0..20 x counts 0..24, and counts 2^31-1 .. 3*2^31+7 on a virtual stream; a class = (operation, size bucket, "
